@@ -41,6 +41,7 @@ type Rig struct {
 	QuorumC   chan *vaa.VAA
 	MsgPubC   chan *reporter.MessagePublication
 	cancel    context.CancelFunc
+	opts      Options
 	RunErr    chan error
 }
 
@@ -87,6 +88,16 @@ func New(o Options) (*Rig, error) {
 	sub := r.Events.Subscribe()
 	r.QuorumC = sub.Channels.VAAQuorumC
 	r.MsgPubC = sub.Channels.MessagePublicationC
+	r.opts = o
+	if err := r.start(); err != nil {
+		return nil, err
+	}
+	return r, nil
+}
+
+// start creates the processor (a fresh one: empty aggregation state, no guardian set) over the rig's store and channels.
+func (r *Rig) start() error {
+	o, d := r.opts, r.DB
 	ctx, cancel := context.WithCancel(context.Background())
 	r.cancel = cancel
 	ready := make(chan struct{})
@@ -107,9 +118,27 @@ func New(o Options) (*Rig, error) {
 	select {
 	case <-ready:
 	case <-time.After(20 * time.Second):
-		return nil, context.DeadlineExceeded
+		return context.DeadlineExceeded
 	}
-	return r, nil
+	return nil
+}
+
+// Restart models a guardian process restart in direct mode: the store survives, everything the processor kept in
+// memory (aggregation state, the guardian set it had learnt) is gone, loop-back observations in flight are lost.
+func (r *Rig) Restart() error {
+	r.cancel()
+	for { // loop-back goroutines of the old processor still parked on ObsvC
+		select {
+		case <-r.ObsvC:
+			continue
+		case <-time.After(3 * time.Millisecond):
+		}
+		break
+	}
+	r.DrainSend()
+	r.DrainReq()
+	r.Gst = common.NewGuardianSetState(nil)
+	return r.start()
 }
 
 func (r *Rig) Close() {
